@@ -74,6 +74,19 @@ def judge(rec, opts):
             return [(f"literal-raised-{type(e).__name__}:{site}:{q}:{forms}", {"src": src, "want": want})]
         if got != want:
             return [(f"literal-value:{site}:{q}:{forms}", {"src": src, "want": want, "got": got})]
+        if site in ("output", "assign"):
+            # the same through the size-limited output buffer (Environment.output_stream_limit)
+            lim = opts.get("_limenv")
+            if lim is None:
+                class Limited(Environment):
+                    output_stream_limit = 10 ** 6
+                lim = opts["_limenv"] = Limited()
+            try:
+                got2 = lim.from_string(src).render(x=value, h={value: "HIT"}, xs=[value], y="!")
+            except Exception as e:  # noqa: BLE001
+                return [(f"literal-raised-{type(e).__name__}:{site}:limited-output:{q}:{forms}", {"src": src})]
+            if got2 != want:
+                return [(f"literal-value:{site}:limited-output:{q}:{forms}", {"src": src, "want": want, "got": got2})]
         return []
     if kind == "num":
         env = _env(opts)
